@@ -105,4 +105,68 @@ example : requirePermission
     [⟨some [.p4 0x0a000000 8], none, ⟨false, true, false, false⟩⟩, ⟨none, none, ⟨true, true, true, true⟩⟩]
     (.v4 0x0a010203) .dnsRecursion = .notAuthorised := by decide
 
+/-- the network of a 128-bit prefix: the written address with its low `128 - len` bits cleared -/
+theorem net128 (addr len : Nat) (hl : len ≤ 128) (ha : addr < 2 ^ 128) :
+    addr &&& netmask 128 len = addr / 2 ^ (128 - len) * 2 ^ (128 - len) := by
+  rw [netmask_eq 128 len hl, and_himask]
+  congr 1
+  apply Nat.mod_eq_of_lt
+  have hp : 2 ^ 128 = 2 ^ (128 - len) * 2 ^ len := by rw [← Nat.pow_add]; congr 1; omega
+  apply Nat.div_lt_of_lt_mul
+  rw [← hp]; exact ha
+
+/-- **The subtraction `prefixlen - 96` in `Prefix6::contains(Ipv4Addr)` cannot underflow**: the
+    network only has the `::ffff:a.b.c.d` shape when the prefix is at least 96 bits long (a shorter
+    mask clears bit 32, the lowest of the sixteen one-bits). -/
+theorem C08_mapped_prefix_no_underflow (addr len : Nat) (hl : len ≤ 128) (ha : addr < 2 ^ 128)
+    (h : (addr &&& netmask 128 len) / 2 ^ 32 = 0xffff) : 96 ≤ len := by
+  rw [net128 addr len hl ha] at h
+  by_cases hlen : 96 ≤ len
+  · exact hlen
+  · exfalso
+    -- 128 - len ≥ 33: the network is a multiple of 2^33, so network / 2^32 is even
+    have hk : 128 - len = 33 + (95 - len) := by omega
+    rw [hk, Nat.pow_add, ← Nat.mul_assoc] at h
+    have h33 : (2:Nat) ^ 33 = 2 ^ 32 * 2 := by decide
+    generalize addr / (2 ^ 33 * 2 ^ (95 - len)) = q at h
+    generalize (2:Nat) ^ (95 - len) = r at h
+    rw [h33] at h
+    have : q * (2 ^ 32 * 2) * r / 2 ^ 32 = q * r * 2 := by
+      have : q * (2 ^ 32 * 2) * r = (q * r * 2) * 2 ^ 32 := by
+        simp only [Nat.mul_assoc, Nat.mul_comm, Nat.mul_left_comm]
+      rw [this, Nat.mul_div_cancel _ (Nat.two_pow_pos 32)]
+    rw [this] at h
+    omega
+
+/-- **C08 (IPv4 client against a mapped IPv6 prefix).** A rule written `::ffff:a.b.c.d/(96+n)` matches
+    an IPv4 client exactly when the client lies inside `a.b.c.d/n`. -/
+theorem C08_mapped_prefix (a4 n ip : Nat) (hn : n ≤ 32) (ha : a4 < 2 ^ 32) (hi : ip < 2 ^ 32) :
+    (Prefix.p6 (mappedBase + a4) (96 + n)).contains (.v4 ip) = true ↔ inPrefix 32 a4 n ip := by
+  have hl : 96 + n ≤ 128 := by omega
+  have haddr : mappedBase + a4 < 2 ^ 128 := by unfold mappedBase; omega
+  have hk : 128 - (96 + n) = 32 - n := by omega
+  simp only [Prefix.contains]
+  rw [net128 _ _ hl haddr, hk]
+  -- the network is ::ffff:(a4 with its low 32-n bits cleared)
+  have hsplit : (2:Nat) ^ 32 = 2 ^ (32 - n) * 2 ^ n := by rw [← Nat.pow_add]; congr 1; omega
+  have hpos : 0 < 2 ^ (32 - n) := Nat.two_pow_pos _
+  have hdiv : (mappedBase + a4) / 2 ^ (32 - n) = 0xffff * 2 ^ n + a4 / 2 ^ (32 - n) := by
+    unfold mappedBase
+    rw [hsplit, show 0xffff * (2 ^ (32 - n) * 2 ^ n) + a4 = a4 + 2 ^ (32 - n) * (0xffff * 2 ^ n) by
+      rw [Nat.add_comm, Nat.mul_left_comm]]
+    rw [Nat.add_mul_div_left _ _ hpos]; omega
+  rw [hdiv, Nat.add_mul]
+  have hm : 0xffff * 2 ^ n * 2 ^ (32 - n) = 0xffff * 2 ^ 32 := by
+    rw [Nat.mul_assoc, ← Nat.pow_add]; congr 2; omega
+  rw [hm]
+  have hlow : a4 / 2 ^ (32 - n) * 2 ^ (32 - n) < 2 ^ 32 := by
+    have := Nat.div_mul_le_self a4 (2 ^ (32 - n)); omega
+  have h1 : (0xffff * 2 ^ 32 + a4 / 2 ^ (32 - n) * 2 ^ (32 - n)) / 2 ^ 32 = 0xffff := by omega
+  have h2 : (0xffff * 2 ^ 32 + a4 / 2 ^ (32 - n) * 2 ^ (32 - n)) % 2 ^ 32 = a4 / 2 ^ (32 - n) * 2 ^ (32 - n) := by omega
+  simp only [h1, if_true, h2, show 96 + n - 96 = n by omega]
+  rw [containsW_iff 32 _ n ip hn hlow hi]
+  simp only [decide_eq_true_eq, inPrefix]
+  rw [Nat.mul_div_cancel _ hpos]
+
+
 end Erbium.Props.C08
